@@ -24,9 +24,9 @@ S = "orquestra.quantum.circuits._serde"
 MANIFEST = {
     "engine": "engine-F",
     "category": "other",
-    "technique": "contract-based verification: frame / statelessness conditions of the (de)serialisers by static ownership analysis; the round-trip postcondition (same wrapper nesting, control counts, exponents, parameters, free symbols, equal object, same width / order / qubit tuples / definitions) by exhaustive enumeration over a gate pool x all wrapper nestings up to depth 3 through real JSON text and files (bounded stand-in: the format is text parsed by sympy, outside the VC generator's fragment)",
-    "text": "The name-driven dispatch of the deserialiser is exercised on every nesting of the five wrapper kinds up to depth 3 on a pool covering every built-in gate and custom gates, through real JSON text; that is exhaustive for the stated depth and pool, not a proof for all depths: level 'other'.",
-    "note": "Trusted: json, sympy.sympify executed natively; Engine F. Bound: wrapper depth 3, the stated pool. One known finding (plain + indexed symbol of the same name).",
+    "technique": "contract-based verification: the round-trip postcondition '_gate_from_dict(json(to_dict(W(g)))) == W(g)' proved by structural induction over wrapper nesting - the real text of _serde.py executed on an OPAQUE wrapped gate (its dictionary is a placeholder that deserialises to that very gate: the induction hypothesis) for each wrapper kind and every name shape the wrapped gate can have, likewise for operations and circuits of opaque operations; base cases (every built-in and custom gate with numeric / symbolic / indexed / expression parameters, i.e. the text format parsed by sympy) and directly constructed nestings by exhaustive enumeration through real JSON text and files; frame / statelessness conditions by static ownership analysis",
+    "text": "The induction step covers every nesting depth for the name-driven dispatch (the place where wrapper kinds can be confused); the base cases are expression text parsed by sympy, outside the VC generators' fragment, and are decided by exhaustive enumeration over the stated pool - hence level 'other' (induction over structure + bounded leaves), not 'proof'.",
+    "note": "Trusted: json, sympy.sympify executed natively; parametricity of the (de)serialisers in the opaque wrapped gate (any access beyond name / free_symbols / params / num_qubits ends the run undecided); Engine F. Bound: the gate pool of the base cases, circuits of <= 5 opaque operations. One known finding (plain + indexed symbol of the same name).",
 }
 TRUSTED = ["json / sympy executed natively", "vfw/frame.py"]
 ASSUMPTIONS = ["bounded: wrapper nesting depth <= 3 over the stated gate pool", "matrix evaluation of fractional powers / exponentials is not part of this check (structure and parameters are)"]
@@ -305,9 +305,160 @@ def _check_circuits(i):
     return True, "ok"
 
 
+INDUCTION_ASSUMES = [
+    "the wrapped gate is opaque: the (de)serialisers can read its `name`, `free_symbols`, `params`, `num_qubits` and nothing else (any other access ends the run as undecided); "
+    "by parametricity the step then holds for every wrapped gate whose name falls in one of the enumerated name shapes",
+    "name shapes of the wrapped gate: plain, looking like each wrapper kind (Control, Exponential, X_Dagger, X^2, Exponential^2_Dagger), ending in 'Dagger' / containing '^' without being a wrapper",
+    "control counts / exponents / qubit indices are only stored and read back: representative values (incl. 10**6, negative and fractional exponents, tuples of length 0..5) stand for all",
+    "json.dumps / json.loads are the real library functions (the placeholder of the wrapped gate's dictionary is passed through them)",
+]
+
+
+_CONCRETE = {"G": "custom('G')", "Control": "G.ControlledGate(B.X, 1)", "Exponential": "G.Exponential(B.X)", "X_Dagger": "G.Dagger(B.X)", "X^2": "G.Power(B.X, 2)",
+             "Exponential^2_Dagger": "G.Dagger(G.Power(G.Exponential(B.X), 2))", "Control_Dagger^0.5": "G.Power(G.Dagger(G.ControlledGate(B.X, 1)), 0.5)", "fooDagger": "custom('fooDagger')",
+             "a^b": "custom('a^b')", "Dagger": "custom('Dagger')", "^": "custom('^')"}
+_WRAP = {"controlled": "G.ControlledGate(g, 2)", "dagger": "G.Dagger(g)", "exponential": "G.Exponential(g)", "power": "G.Power(g, 0.5)"}
+
+
+def _induction_replay(kind, name):
+    """a concrete instance of the failing induction step: the wrapper around a real gate whose name has the same shape"""
+    return f"""
+import json, sympy
+from orquestra.quantum.circuits import _gates as G, _builtin_gates as B, Circuit, CustomGateDefinition, circuit_from_dict, to_dict
+custom = lambda n: CustomGateDefinition(n, sympy.Matrix([[0, 1], [1, 0]]), ())()
+g = {_CONCRETE[name]}
+w = {_WRAP[kind]}
+c = Circuit([w(*range(w.num_qubits))])
+try:
+    back = circuit_from_dict(json.loads(json.dumps(to_dict(c))))
+    OK = bool(back == c and type(back.operations[0].gate) is type(w))
+    OBSERVED = f"{{w!r}} came back as {{back.operations[0].gate!r}}"
+except Exception as e:
+    OK = False
+    OBSERVED = f"round trip of {{w!r}} raised {{type(e).__name__}}: {{e}}"
+"""
+
+
+class _AbsGate:
+    """an arbitrary gate the (de)serialisers must treat as a black box; equality is identity"""
+    free_symbols = ()
+    params = ()
+    num_qubits = 1
+
+    def __init__(self, name):
+        self.name = name
+
+    def __repr__(self):
+        return f"<arbitrary gate named {self.name!r}>"
+
+
+class _AbsDict(dict):
+    """what to_dict returned for the arbitrary gate; the induction hypothesis says _gate_from_dict maps it back to that very gate"""
+
+
+def _induction_obs():
+    """Structural induction over wrapper nesting: for each wrapper kind W and an ARBITRARY wrapped gate g for which the round trip is the identity (hypothesis),
+    _gate_from_dict(json(to_dict(W(g, extra)))) == W(g, extra) with the same wrapper class, the same g and the same extra - the real text of _serde.py is executed
+    on an opaque g.  Together with the base cases (C05.gates.enum: every built-in / custom gate) this covers every nesting depth."""
+    import json as _json
+    from vfw import src as _src
+
+    def load():
+        serde = _src.shadow_load(S, {})
+        ns = serde.__ns__
+        registry = {}
+
+        def abs_to_dict(g):
+            d = _AbsDict({"name": g.name, "__placeholder__": len(registry)})
+            registry[len(registry)] = g
+            return d
+        ns["to_dict"].register(_AbsGate)(abs_to_dict)
+        real = ns["_gate_from_dict"]
+
+        def gate_from_dict(d, defs):
+            if isinstance(d, dict) and "__placeholder__" in d:
+                return registry[d["__placeholder__"]]          # induction hypothesis
+            return real(d, defs)
+        ns["_gate_from_dict"] = gate_from_dict
+        return ns, gate_from_dict
+
+    NAMES = ["G", "Control", "Exponential", "X_Dagger", "X^2", "Exponential^2_Dagger", "Control_Dagger^0.5", "fooDagger", "a^b", "Dagger", "^"]
+
+    def step(kind):
+        def run():
+            import time
+            from orquestra.quantum.circuits import _gates as G
+            t0 = time.time()
+            ns, gfd = load()
+            mk = {"controlled": [lambda g, v=v: G.ControlledGate(g, v) for v in (1, 2, 7, 10 ** 6)], "dagger": [lambda g: G.Dagger(g)], "exponential": [lambda g: G.Exponential(g)],
+                  "power": [lambda g, v=v: G.Power(g, v) for v in (2, -1, 0, 0.5, 1e-3, 3.75, -2.5, 10 ** 6)]}[kind]
+            q = 0
+            for name in NAMES:
+                for make in mk:
+                    g = _AbsGate(name)
+                    try:
+                        w = make(g)
+                        d = ns["to_dict"](w)
+                        text = _json.dumps(d)
+                        back = gfd(_json.loads(text), [])
+                    except (AttributeError, TypeError) as e:
+                        if "_AbsGate" in str(e):
+                            return core.undecided("shadow-execution", f"the code reads more of the wrapped gate than name / free_symbols / params / num_qubits: {e}")
+                        return core.refuted("shadow-execution", f"{kind} wrapper around an arbitrary gate named {name!r}: the round trip raises {type(e).__name__}: {e}",
+                                            cex={"wrapper": kind, "wrapped_gate_name": name}, replay=rp.replay_dict(_induction_replay(kind, name), "round trip is the identity"))
+                    except Exception as e:
+                        return core.refuted("shadow-execution", f"{kind} wrapper around an arbitrary gate named {name!r}: the round trip raises {type(e).__name__}: {e}",
+                                            cex={"wrapper": kind, "wrapped_gate_name": name}, replay=rp.replay_dict(_induction_replay(kind, name), "round trip is the identity"))
+                    q += 1
+                    if type(back) is not type(w) or back != w or back.wrapped_gate is not g:
+                        return core.refuted("shadow-execution", f"{kind} wrapper around an arbitrary gate named {name!r}: {w!r} serialises to {text} and comes back as {back!r}",
+                                            cex={"wrapper": kind, "wrapped_gate_name": name}, replay=rp.replay_dict(_induction_replay(kind, name), "round trip is the identity"))
+                    if isinstance(back, G.ControlledGate) and back.num_control_qubits != w.num_control_qubits or isinstance(back, G.Power) and back.exponent != w.exponent:
+                        return core.refuted("shadow-execution", f"{kind}: control count / exponent changed")
+            return core.discharged("shadow-execution", time.time() - t0, queries=q, sample={"wrapped_gate_name_shapes": NAMES, "cases": q})
+        return Ob(f"C05.induction[{kind}]", "proof", [S + ":_special_gate_from_dict", S + ":_gate_from_dict", S + ":to_dict"], run,
+                  f"induction step: a {kind} wrapper around an ARBITRARY gate that round-trips comes back as the same wrapper (class, control count / exponent) around the same gate, "
+                  "through real JSON text; with the base cases this covers every nesting depth", timeout=300, assumes=INDUCTION_ASSUMES)
+
+    def op_step():
+        import time
+        from orquestra.quantum.circuits import _gates as G, Circuit
+        t0 = time.time()
+        ns, gfd = load()
+        q = 0
+        for qs in ((), (0,), (3, 1), (5, 0, 2), (10 ** 6, 7, 0, 1), (4, 3, 2, 1, 0)):
+            g = _AbsGate("G")
+            op = G.GateOperation(g, qs)
+            back = ns["_gate_operation_from_dict"](_json.loads(_json.dumps(ns["to_dict"](op))), [])
+            q += 1
+            if type(back) is not G.GateOperation or back.gate is not g or back.qubit_indices != qs or not isinstance(back.qubit_indices, tuple):
+                return core.refuted("shadow-execution", f"operation of an arbitrary gate on qubits {qs} comes back as {back!r}", cex={"qubits": list(qs)})
+        # circuits: any sequence of operations that round-trip individually, any declared width
+        for L in range(0, 6):
+            for extra in (0, 1, 3):
+                ops = [G.GateOperation(_AbsGate(f"G{i}"), ((i * 2) % 5, (i * 2 + 1) % 5 + 5)) for i in range(L)]
+                width = (max([q_ for o in ops for q_ in o.qubit_indices], default=-1) + 1) + extra
+                c = Circuit(ops, n_qubits=width)
+                back = ns["circuit_from_dict"](_json.loads(_json.dumps(ns["to_dict"](c))))
+                q += 1
+                if back.n_qubits != width or len(back.operations) != L or any(b.gate is not o.gate or b.qubit_indices != o.qubit_indices for b, o in zip(back.operations, ops)):
+                    return core.refuted("shadow-execution", f"circuit of {L} arbitrary operations, width {width}: comes back with width {back.n_qubits} and {len(back.operations)} operations "
+                                                            f"(order / qubits / gates changed)", cex={"length": L, "width": width})
+        return core.discharged("shadow-execution", time.time() - t0, queries=q)
+    out = [step(k) for k in ("controlled", "dagger", "exponential", "power")]
+    out.append(Ob("C05.induction[operation,circuit]", "proof", [S + ":_gate_operation_to_dict", S + ":_gate_operation_from_dict", S + ":_circuit_to_dict", S + ":circuit_from_dict"], op_step,
+                  "an operation of an ARBITRARY gate that round-trips keeps its gate and qubit tuple; a circuit of 0..5 such operations with 0 / 1 / 3 idle qubits above keeps its width, "
+                  "length and order (through real JSON text)", timeout=300, assumes=INDUCTION_ASSUMES))
+    return out
+
+
 def build(tier, seed):
     obs = []
     fb = vprop.enum_ob("x", [], lambda: [0], _check_circuits, "").run
+    fbg = vprop.enum_ob("x", [], lambda: _gate_cases("quick")[:6], _check_gate, "").run
+    for o in _induction_obs():
+        o.fallback = fbg
+        obs.append(o)
 
     def frame_ob(key):
         def run():
